@@ -446,3 +446,67 @@ V('ix10-none-value', ['C07'], 'yalafi/packages/glossaries.py',
   "    descr = parser.parse_keyvals_dict(args[1]).get('description') or []", "    descr = parser.parse_keyvals_dict(args[1]).get('description', [])", 'IX10')
 V('ix10-unbounded', ['C07'], 'yalafi/handlers.py',
   "    if nargs > 9:\n", "    if nargs < 0:\n", 'IX10')
+
+# ---- rules added after seed round 3 (sa/rules/r3.py)
+V('sp5-hash-key', ['C07'], PA, "            '#': '#',\n", "", 'SP5')
+V('sp5-isalpha', ['C19'], PA, "        return c >= 'a' and c <= 'z' or c >= 'A' and c <= 'Z' or c == '@'",
+  "        return c.isalpha() or c == '@'", 'SP5')
+V('sp5-neutral-ascii', ['C19'], PA, "        return c >= 'a' and c <= 'z' or c >= 'A' and c <= 'Z' or c == '@'",
+  "        return 'a' <= c <= 'z' or 'A' <= c <= 'Z' or c == '@'", [])
+V('ix11-narrow', ['C07'], U, "                        eval(mod + '.init_module'))\n    except:\n",
+  "                        eval(mod + '.init_module'))\n    except (ImportError, AttributeError):\n", 'IX11')
+V('ix11-neutral', ['C07'], U, "                        eval(mod + '.init_module'))\n    except:\n",
+  "                        eval(mod + '.init_module'))\n    except Exception:\n", [])
+V('ix12-other-list', ['C07'], P, "                if t.arg < 1 or t.arg > len(arg_pos_map):", "                if t.arg < 1 or t.arg > len(args):", 'IX12')
+V('ix13-no-test', ['C15', 'C16'], 'yalafi/shell/utils.py', "    return len(m.group(0)) if m else length", "    return len(m.group(0))", 'IX13')
+V('ix13-neutral', ['C15', 'C16'], 'yalafi/shell/utils.py', "    return len(m.group(0)) if m else length",
+  "    if not m:\n        return length\n    return len(m.group(0))", [])
+V('ix14-comma', ['C10', 'C11'], PA, "            ':', ':=', '\\\\to', '\\\\cap', '\\\\cup',\n            '\\\\Rightarrow',",
+  "            ':', ':=', '\\\\to', '\\\\cap', '\\\\cup'\n            '\\\\Rightarrow',", 'IX14')
+V('ml7-lt', ['C12'], U, "    return len(sec.txt.split()) <= parms.ml_continue_thresh", "    return len(sec.txt.split()) < parms.ml_continue_thresh", 'ML7')
+V('ml7-blanks', ['C12'], U, "    return len(sec.txt.split()) <= parms.ml_continue_thresh",
+  "    return sec.txt.strip().count(' ') < parms.ml_continue_thresh", 'ML7')
+V('ml7-neutral', ['C12'], U, "    return len(sec.txt.split()) <= parms.ml_continue_thresh",
+  "    words = sec.txt.split()\n    return parms.ml_continue_thresh >= len(sec.txt.split())", [])
+V('rp2-quick-reject', ['C13'], U, "        if not t:\n            continue\n        if t[0].isalpha():",
+  "        if not t or lin[0] not in txt:\n            continue\n        if t[0].isalpha():", 'RP2')
+V('rp2-partition', ['C13'], U, "        lin = lin.split()\n\n        t = s = ''",
+  "        lhs, _, rhs = lin.partition('&')\n        lin = lhs.split() + ['&'] + rhs.split()\n\n        t = s = ''", 'RP2')
+V('ok6-encoding', ['C14'], PR, "                        input=plain.encode('utf-8'), stdout=subprocess.PIPE)",
+  "                        input=plain.encode(cmdline.encoding), stdout=subprocess.PIPE)", 'OK6')
+V('mc1-undeclared', ['C19'], 'yalafi/packages/babel.py', "        Macro(parms, '\\\\babel@skip@space', args='', repl=''),\n", "", 'MC1')
+V('lc3-crossed', ['C20'], PA, "            self.math_repl_display_vowel = math_repl_display\n", "            self.math_repl_display_vowel = math_repl_inline\n", 'LC3')
+V('ck6-falsy', ['C20'], CH, "    if cmdline.single_letters is None:", "    if not cmdline.single_letters:", 'CK6')
+V('rx5-template', ['C16'], GH,
+  "    def f(m):\n        return pre + m.group(1) + post + m.group(2)\n    return re.sub(r'((?:.|\\n)*?(?!\\Z)|(?:.|\\n)+?)(<br>\\n|\\Z)', f, s)",
+  "    return re.sub(r'((?:.|\\n)*?(?!\\Z)|(?:.|\\n)+?)(<br>\\n|\\Z)',\n                    pre + r'\\1' + post + r'\\2', s)", 'RX5')
+V('rs1-init-only', ['C18', 'C08', 'C02'], P, "            self.init_extractions(extract)\n        self.extracted = []\n        self.unknowns = []",
+  "            self.init_extractions(extract)\n        self.unknowns = []", 'RS1')
+V('rs1-neutral-helper', ['C18', 'C08'], P, "            self.init_extractions(extract)\n        self.extracted = []\n        self.unknowns = []",
+  "            self.init_extractions(extract)\n        self.unknowns = []\n        self.extracted = list()", [])
+V('cm3-early', ['C16'], SH, "cmdline = parser.parse_args(sys.argv[1:])\nif not cmdline.no_config:",
+  "cmdline = parser.parse_args(sys.argv[1:])\nif cmdline.context < 0:\n    cmdline.context = int(1e8)\nif not cmdline.no_config:", 'CM3')
+V('th6-carried', ['C16'], GH, "        h.beglin = tex.count('\\n', 0, h.beg)\n        h.endlin = tex.count('\\n', 0, h.end) + 1",
+  "        lin_cnt += tex.count('\\n', pos_cnt, h.beg)\n        pos_cnt = h.beg\n        h.beglin = lin_cnt\n        h.endlin = lin_cnt + tex.count('\\n', h.beg, h.end) + 1", 'TH6')
+V('ck7-glue', ['C20'], SH, "    cmdline.single_letters += r'|'.join(set(repls))",
+  "    cmdline.single_letters += equation_replacements\n    cmdline.single_letters += r'|'.join(set(repls))", 'CK7')
+V('ck7-neutral', ['C20'], SH, "    cmdline.single_letters += r'|'.join(set(repls))",
+  "    cmdline.single_letters += equation_replacements\n    cmdline.single_letters += '|' + r'|'.join(set(repls))", [])
+V('tk1-space-text', ['C11', 'C10'], 'yalafi/handlers.py', "        return [defs.SpecialToken(pos, '\\\\;')]", "        return [defs.TextToken(pos, ' ')]", 'TK1')
+V('ml8-drop-space', ['C05', 'C12'], U, "        # inclusion is empty or only contains space\n        sec.txt += incl.txt\n        sec.pos += incl.pos\n        return",
+  "        # inclusion is empty or only contains space\n        return", 'ML8')
+V('sc7-literal-set', ['C05'], S, "                                if not latex[i].isspace()), self.max_pos)\n        space = latex[start:self.pos]",
+  "                                if latex[i] not in ' \\t\\n'), self.max_pos)\n        space = latex[start:self.pos]", 'SC7')
+V('ix15-look-ahead', ['C06', 'C07'], S,
+  "        buf = []\n        tok = self.cur()\n        while self.is_space(tok):\n            buf.append(tok)\n            tok = self.next()\n        self.back(buf)\n        return tok",
+  "        n = len(self.tokens) - 1\n        while n >= 0 and self.is_space(self.tokens[n]):\n            n -= 1\n        return self.tokens[n]", 'IX15')
+V('ix15-neutral', ['C06', 'C07'], S,
+  "        buf = []\n        tok = self.cur()\n        while self.is_space(tok):\n            buf.append(tok)\n            tok = self.next()\n        self.back(buf)\n        return tok",
+  "        n = len(self.tokens) - 1\n        while n >= 0 and self.is_space(self.tokens[n]):\n            n -= 1\n        return self.tokens[n] if n >= 0 else None", [])
+V('ac3-can-start', ['C05', 'C06'], P, "                t.can_start = '\\n' in txt and not txt[txt.rfind('\\n'):].strip()",
+  "                t.can_start = not txt[txt.rfind('\\n'):].strip()", 'AC3')
+V('ex2-return-expanded', ['C03'], 'yalafi/handlers.py', "    arg = args[2]\n    txt = parser.get_text_expanded(arg).strip()",
+  "    arg = parser.expand_sequence(scanner.Buffer(args[2]))\n    txt = parser.get_text_direct(arg).strip()", 'EX2')
+V('sc5-comment-loop', ['C18', 'C19', 'C03', 'C08'], S,
+  "        if latex.count('\\n', self.pos + 1, next_non_space) == 0:\n            # next line not empty: progress further\n            self.pos = next_non_space\n",
+  "        if latex.count('\\n', self.pos + 1, next_non_space) == 0:\n            # next line not empty: progress further\n            self.pos = next_non_space\n            while self.pos < self.max_pos and latex[self.pos] == '%':\n                self.pos = next((i for i in range(self.pos + 1, self.max_pos)\n                                if latex[i] == '\\n'), self.max_pos)\n", 'SC5')
